@@ -137,6 +137,14 @@ Definition closure_verdict (cls : string) (post : val) (roots : list bytes) (bs 
   else if verify_expected roots bs && negb (is_t (vnth 1 post) "ok") then fail2 "closed-under-verify" cls
   else VT "ok"%string.
 
+(* the guard of the partial verify-closure theorems, on the file the implementation wrote *)
+Definition embedded_index_answers (hdrdec : bytes -> option (list bytes * N)) (f : bytes) (cids : list bytes) : bool :=
+  match new_reader hdrdec f with
+  | Ok r => if (cr_ver r =? 2) && has_index (cr_hdr r)
+            then index_answers (drop (h_ioff (cr_hdr r)) f) cids else true
+  | Err _ => false
+  end.
+
 Definition expect_archive (dec : option (N * list bytes * list block)) (v : N) (roots : list bytes)
            (bs : list block) : bool :=
   match dec with
@@ -179,6 +187,7 @@ Definition prop_cli_with (hok : bytes -> bytes -> option bool) (hdrdec : bytes -
            | Some f =>
              if negb (expect_archive (decode_archive hok hdrdec f) ver eroots eblocks)
              then fail2 "filter-blocks" cls
+             else if negb (embedded_index_answers hdrdec f (map fst eblocks)) then fail2 "verify-guard-false" cls
              else closure_verdict cls (vnth 2 obs) eroots eblocks
            end
     else if is_t cmd "index" then
@@ -204,6 +213,7 @@ Definition prop_cli_with (hok : bytes -> bytes -> option bool) (hdrdec : bytes -
             if negb (bytes_eqb (take (blen pre) f) pre) then fail2 "index-payload-unchanged" cls
             else if negb (opt_bytes_eqb (detached_index codec hb bs) (drop (blen pre) f))
             then fail2 "index-regenerated" cls
+            else if negb (index_answers (drop (blen pre) f) (map fst bs)) then fail2 "verify-guard-false" cls
             else closure_verdict cls (vnth 2 obs) (a_roots a0) bs
           | _, _ => fail2 "index-payload-unchanged" cls
           end
